@@ -227,6 +227,8 @@ class Tr:
                 obj = 'st'
             else:
                 obj = self.expr(base)
+            if name.startswith('operator ') and not args and base['kind'] == 'DeclRefExpr' and base['referencedDecl']['name'] in self.unit.get('globals', ()):
+                return obj           # conversion operator of std::atomic<T> (a load) on a state variable: the value itself
             return '(%s %s%s)' % (self.callname('m', name, len(args)), obj, ''.join(' ' + a for a in args))
         if k == 'CXXOperatorCallExpr':
             callee = n['inner'][0]
